@@ -39,6 +39,8 @@ pub enum Answer {
     Fail,
     /// fail this call only; the stream keeps working afterwards (transient fault)
     FailTransient,
+    /// the stream has ended: reads and writes transfer 0 bytes (a source that stops delivering data)
+    Eof,
 }
 
 /// Decides the answer of the `idx`-th call. `alts` must be filled with the number of alternatives
@@ -48,6 +50,19 @@ pub trait Chooser: Send {
     /// kind of the I/O errors this chooser injects
     fn fault_kind(&self) -> io::ErrorKind {
         io::ErrorKind::Other
+    }
+}
+
+/// from call `k` on the source delivers nothing more (reads return Ok(0))
+pub struct EofFrom(pub usize);
+impl Chooser for EofFrom {
+    fn choose(&mut self, idx: usize, kind: Kind, _: usize, _: bool) -> Answer {
+        // reads only: a *sink* that accepts 0 bytes forever makes some upstream encoders spin, which no property covers
+        if idx >= self.0 && matches!(kind, Kind::Read) {
+            Answer::Eof
+        } else {
+            Answer::Full
+        }
     }
 }
 
@@ -335,6 +350,7 @@ impl Read for SyncStream {
                 Err(Core::fault_of(c.fault_kind))
             }
             Answer::Short(n) => Ok(c.do_read(buf, n, 0)),
+            Answer::Eof => Ok(c.do_read(buf, 0, 0)),
             _ => Ok(c.do_read(buf, usize::MAX, 0)),
         }
     }
@@ -369,6 +385,7 @@ impl Write for SyncStream {
                 Err(Core::fault_of(c.fault_kind))
             }
             Answer::Short(n) => Ok(c.do_write(buf, n, 0)),
+            Answer::Eof => Ok(c.do_write(buf, 0, 0)),
             _ => Ok(c.do_write(buf, usize::MAX, 0)),
         }
     }
@@ -443,6 +460,7 @@ fn async_gate(c: &mut Core, kind: Kind, len: usize, cx: &mut Context<'_>) -> Res
             Err(Core::fault_of(c.fault_kind))
         }
         Answer::Full => Ok(Some((usize::MAX, 0))),
+        Answer::Eof => Ok(Some((0, 0))),
         Answer::Short(n) => Ok(Some((n, 0))),
         Answer::Pending(times, then) => {
             c.pending = Some((kind, times - 1, then, times));
